@@ -4,7 +4,7 @@ import json, os, sys
 sys.path.insert(0, os.path.join(os.path.dirname(os.path.abspath(__file__)), "driver"))
 import plans
 
-HOOK_COMMITS = ["3000279"]
+HOOK_COMMITS = ["30002795f318b560c5ce91f03fd03487c5aad33a"]
 
 TECH = {
     "C01": "runtime monitor: mutation histories replayed on the real types and on an executable reference model, full observation after every call; ASan, debug UB-precondition/overflow checks (+ Miri in thorough)",
